@@ -376,6 +376,24 @@ func c10Transitions(c *Check) {
 		}
 	}
 	if lenSym == nil {
+		// the test may be part of a materialised condition (a named boolean)
+		for _, b := range enterJ.Blocks {
+			if iff, ok := b.Instrs[len(b.Instrs)-1].(*ssa.If); ok && efi.Reach[b.Index] {
+				am := map[string]*BAtom{}
+				efi.valueBF(iff.Cond, 0).atoms(am)
+				for _, a := range am {
+					if a.Src != nil {
+						a.Src.Walk(func(x *Sym) {
+							if x.K == KBuiltin && x.Name == "len" {
+								lenSym = x
+							}
+						})
+					}
+				}
+			}
+		}
+	}
+	if lenSym == nil {
 		c.Bad("C10.E", "ConfChangeV2.EnterJoint", fnName(enterJ), p.Pos(enterJ.Pos()), "joint iff transition != Auto || len(changes) > 1", "no length test")
 		return
 	}
